@@ -342,14 +342,19 @@ def main():
             "path": "engine/",
             "serves_properties": sorted(CLAIMED),
             "kind_free_text": "repository-specific static analyser over Python ast: class/MRO model, call resolution, "
-                              "forward dataflow (ownership/effects, sign typestate, provenance), sibling agreement, "
-                              "abstract evaluation of closed expression sub-languages",
+                              "forward dataflow (ownership/effects, sign typestate, provenance), sibling agreement, and an "
+                              "abstract interpreter (engine/minieval.py) with a normalising token algebra for block contents "
+                              "(engine/absarray.py, engine/layout.py) evaluated over a bounded universe (engine/absops.py)",
         }],
         "checks": checks,
         "not_applicable": na,
-        "notes": "All checks are static (ast-based); exit 2 + ANALYSIS-ERROR means the analysis itself could not proceed "
-                 "(vanished anchor / unrecognised form), never a property violation. known_findings.json lists genuine "
-                 "defects (open = reported as KNOWN-FINDING, fixed = suppresses nothing).",
+        "notes": "All checks decide from the source (ast); none imports or runs symmray. Two kinds of verdict, named in each level text: "
+                 "all-paths static analysis, and abstract interpretation by the checker's own evaluator over a bounded, enumerated "
+                 "family of index tables with opaque block contents ('BOUNDED CLAIM'). Exit 2 + ANALYSIS-ERROR means the analysis "
+                 "itself could not proceed (vanished anchor / construct outside the evaluable sub-language), never a property "
+                 "violation. known_findings.json lists genuine defects: 13 fixed entries for the 11 fix: commits in /repo (they suppress nothing) and 3 open (C01 "
+                 "expand_dims with an odd charge on a fermionic array; C01 solve with an odd-parity matrix; C07 reshape of an "
+                 "all-size-one array to the 0-d shape), each reported as a KNOWN-FINDING line by its check.",
     }
     with open(os.path.join(V, "MANIFEST.json"), "w") as fh:
         json.dump(m, fh, indent=1)
